@@ -14,7 +14,10 @@
 // write per-query state (marks through the real plugin/mark and harness
 // plugins, stored values, the query message, the response in place) so that
 // what one context does after a copy was taken must not change which rules
-// the continuation executes on the other.
+// the continuation executes on the other. Rule arguments and state values are
+// also taken from the ends of their ranges, queries carry up to 40 marks / values,
+// and long programs (hundreds of jumps / gotos / rules on one path) are part of
+// the template list (boundary.go).
 package main
 
 import (
@@ -112,7 +115,11 @@ func compare(exp, obs *result, runaway bool, panicked any) (string, string) {
 		return "trace-extra-invocations", fmt.Sprintf("mosdns invoked %q (entry #%d) although by the rules processing had ended after %d invocations", obs.Trace[n], n, n)
 	}
 	if len(obs.Trace) < len(exp.Trace) {
-		return "trace-missing-invocations", fmt.Sprintf("mosdns stopped after %d invocations; by the rules %q (entry #%d) must run next", n, exp.Trace[n], n)
+		how := ""
+		if obs.Err != exp.Err {
+			how = " (mosdns returned error " + obs.Err + ", the rules say " + exp.Err + ")"
+		}
+		return "trace-missing-invocations", fmt.Sprintf("mosdns stopped after %d invocations%s; by the rules %q (entry #%d) must run next", n, how, exp.Trace[n], n)
 	}
 	if exp.Err != obs.Err {
 		return "error-mismatch", fmt.Sprintf("returned error: rules say %s, mosdns returned %s", exp.Err, obs.Err)
@@ -255,7 +262,11 @@ func checkProgram(w *world, p *Program, onlyEntry, onlyPreset int, st *stats, dq
 		for i := range p.Seqs {
 			st.loaders[p.Seqs[i].Loader]++
 		}
-		st.origins[strings.Fields(p.Origin)[0][:2]]++
+		if o := strings.Fields(p.Origin)[0]; o[0] == 'G' {
+			st.origins[o]++
+		} else {
+			st.origins[o[:2]]++
+		}
 	}
 	for e := range p.Seqs {
 		if onlyEntry >= 0 && e != onlyEntry {
@@ -394,6 +405,23 @@ func mergeFeats(d, s *feats) {
 		d.deferredReg[k] += v
 	}
 	d.deferredPending += s.deferredPending
+	for _, m := range []struct{ d, s *int }{{&d.maxJumpsOnPath, &s.maxJumpsOnPath}, {&d.maxGotosOnPath, &s.maxGotosOnPath}, {&d.maxMarks, &s.maxMarks}, {&d.maxValues, &s.maxValues}, {&d.maxRulesVisited, &s.maxRulesVisited}} {
+		if *m.s > *m.d {
+			*m.d = *m.s
+		}
+	}
+	for k, v := range s.markReadsByValue {
+		d.markReadsByValue[k] += v
+	}
+	for k, v := range s.markReadsByCount {
+		d.markReadsByCount[k] += v
+	}
+	for k, v := range s.realMatcherReads {
+		d.realMatcherReads[k] += v
+	}
+	for k, v := range s.pathBuckets {
+		d.pathBuckets[k] += v
+	}
 }
 
 // samples: one per interesting class
@@ -586,7 +614,7 @@ func main() {
 	caselog = evid.OpenCaseLog()
 	registerQuickSetups()
 	debug.SetMaxStack(256 << 20) // a walker that recurses forever must die quickly, not eat 16 x 1 GB
-	rep.SetRule("programs = corner-case grids (G1 control grid {terminator in callee} x {jump,goto} x {terminator in caller} x {no wrapper, 14 wrapper kinds} x {jump,goto}; G2 wrapper inside a jumped sequence; G3 every matcher tuple of length 0..3 over {T,F,E,has-response,_true,_false} x {plain,!}; G4 nesting depth 1..6 with a wrapper at every level; G5 top-level return/accept/reject; G6 stacked wrappers; G7 per-query state {marks via the real plugin/mark, marks via harness plugins, mixed, stored values, the query message id, the response modified in place} x {12 wrapper kinds, 9 of which run the continuation on Copy()s of the query} x {state pre-seeded: none / another key / the key under test / both} x {key set or cleared by the continuation} x {continuation inline or inside a jumped sequence}) + seeded random programs (1-6 sequences x 0-7 rules x 0-3 matchers, DAG references in build order); each rendered to rule text with random white space / '!' spelling / '$tag' vs '$tag args' (quick-configure) vs 'type args' (quick-setup) and loaded via NewSequence, the plugin-type registry or yaml->WeakDecode; every sequence of a program is executed as a top-level entry = one evaluation (again with a response already present if the execution looks at the response). Wrapper kinds: continue once / stop / zero times + own response / post-process / post-process + set / swallow error / twice / twice with drop / concurrently on two copies / KEEP the continuation and run it later on a copy of the query: by a goroutine released when the wrapper Exec returns (lateg, lategc) or after the top-level Exec returned and >= 2 other programs plus an unrelated jumping program ran on the same goroutine, alternately on the same and on a new goroutine, once (later, laterc) or three times (later3); each late run is compared on its own with the reference trace of the same remaining rules; or run it on the original AND on a Copy() taken before (cpa: original first, as fallback does; cpb: copy first; cpc: at the same time, the copy on a new goroutine, as lazy cache update / dual_selector do). Rules also read and write per-query state (matchers: real 'mark N..', harness has-mark / has-value / query-id / response-rcode, all but the real one traced with the value seen; actions: real 'mark N..', set/delete mark, store/delete value, change the query id, change the response rcode in place): the reference gives every context the state as it was when it was copied plus its own writes, so a read on one context after (or while) a related context wrote the same key must still see its own value; a further 20000 (thorough 500000) 'stateful' random programs are biased to such rules and copying wrappers. Non-trivial = the reference trace has >= 3 entries and the execution actually performed at least one jump/goto/return/wrapper/negated-matcher evaluation; distinct = canonical text (labels, ids, white space, text form removed) of the sequences reachable from the entry.")
+	rep.SetRule("programs = corner-case grids (G1 control grid {terminator in callee} x {jump,goto} x {terminator in caller} x {no wrapper, 14 wrapper kinds} x {jump,goto}; G2 wrapper inside a jumped sequence; G3 every matcher tuple of length 0..3 over {T,F,E,has-response,_true,_false} x {plain,!}; G4 nesting depth 1..6 with a wrapper at every level; G5 top-level return/accept/reject; G6 stacked wrappers; G7 per-query state {marks via the real plugin/mark, marks via harness plugins, mixed, stored values, the query message id, the response modified in place} x {12 wrapper kinds, 9 of which run the continuation on Copy()s of the query} x {state pre-seeded: none / another key / the key under test / both} x {key set or cleared by the continuation} x {continuation inline or inside a jumped sequence}; G8 mark VALUE {0, 1, 7, 2^31, max uint32} x NUMBER of other marks on the query {0..9, 15..17, 31..33, 40} x which others {1000.., 0.., both ends of the range first} x how they were set {one real 'mark' rule with all arguments (also none), one harness rule each, mixed} x {inline, on the original and a copy at once, kept continuation}: the value is read by the real matcher (plain, negated, in a two-argument list) and by a harness matcher while absent / set / set twice and deleted once / after other marks were deleted / set again after deletions elsewhere, and every other mark is read back after every step, once by a single rule with one matcher per mark (up to 40 matchers); G9 LONG programs: one sequence executing N jumps that come back, N in {1..300 around 16/32/64/128/256} x callee {action, return in the middle, empty, skipped rule} x {no wrapper, one of 9 wrappers at the first / middle / last jump}, two to five levels of such loops (up to 272 jumps on one path), nesting with 7..200 pending jump returns x bottom terminator x wrapper level, chains of 2..200 gotos (plain, with a returning jump before every goto, entered through a jump), rule lists of 100..2000 rules with a wrapper at the start / middle / end, single rules with 4..300 matchers; G10 the real matcher plugins 'rcode' / 'qtype' / 'qclass' / 'has_resp' with 0..n arguments over {0, 1, .., 4095 resp. 65535} against the response rcode (changed in place; no response) and the question type / class (changed by harness actions) at each of these values x {inline, twice, on original and copy, kept continuation}; G11 queries carrying 0..40 stored values, each read back after stores / deletes / overwrites) + seeded random programs (1-6 sequences x 0-7 rules x 0-3 matchers, DAG references in build order); each rendered to rule text with random white space / '!' spelling / '$tag' vs '$tag args' (quick-configure) vs 'type args' (quick-setup) and loaded via NewSequence, the plugin-type registry or yaml->WeakDecode; every sequence of a program is executed as a top-level entry = one evaluation (again with a response already present if the execution looks at the response). Wrapper kinds: continue once / stop / zero times + own response / post-process / post-process + set / swallow error / twice / twice with drop / concurrently on two copies / KEEP the continuation and run it later on a copy of the query: by a goroutine released when the wrapper Exec returns (lateg, lategc) or after the top-level Exec returned and >= 2 other programs plus an unrelated jumping program ran on the same goroutine, alternately on the same and on a new goroutine, once (later, laterc) or three times (later3); each late run is compared on its own with the reference trace of the same remaining rules; or run it on the original AND on a Copy() taken before (cpa: original first, as fallback does; cpb: copy first; cpc: at the same time, the copy on a new goroutine, as lazy cache update / dual_selector do). Rules also read and write per-query state (matchers: real 'mark N..', harness has-mark / has-value / query-id / response-rcode, all but the real one traced with the value seen; actions: real 'mark N..', set/delete mark, store/delete value, change the query id, change the response rcode in place): the reference gives every context the state as it was when it was copied plus its own writes, so a read on one context after (or while) a related context wrote the same key must still see its own value; a further 20000 (thorough 500000) 'stateful' random programs are biased to such rules and copying wrappers, and 8000 (thorough 200000) 'boundary' random programs draw every rule argument and state value from the ends of its range (marks 0 / 1 / 2^31 / max uint32 and the marks the query was seeded with around positions 4 / 8 / 16 / 32, real 'mark' with 0..5 arguments, real rcode / qtype / qclass / has_resp matchers, 40 value keys), seed the query with 0..40 marks or values and, in a quarter of them, have one sequence of 30..150 rules a third of which are jumps. Non-trivial = the reference trace has >= 3 entries and the execution actually performed at least one jump/goto/return/wrapper/negated-matcher evaluation; distinct = canonical text (labels, ids, white space, text form removed) of the sequences reachable from the entry.")
 	rep.Assume("the reference interpreter (cmd/c06/ref.go: own text parser, explicit continuation stack) encodes the property statement; 'goto never comes back' is read as: all pending jump returns are dropped (goto = jump + accept), as DESIGN.md C06 states")
 	rep.Assume("harness plugin behaviour (what each test matcher/action/wrapper does with the response and with the errors it sees) is specified twice, in plugins.go and in ref.go; a discrepancy there would show as a false alarm on the unchanged tree, not as a missed violation")
 	rep.Assume("query_context.Context.Copy() yields an independent context (plugin/mark, fallback, dual_selector and the lazy cache rely on it): what a rule does on the original after the copy was taken is invisible to the rules run on the copy and vice versa; only matcher verdicts / rules executed are compared, not the final state")
@@ -611,10 +639,11 @@ func main() {
 		rep.Finish()
 	}
 
-	tmpl := templates()
+	tmpl := append(templates(), boundaryTemplates()...)
 	nRandom := int64(rep.Pick(30000, 1000000))
 	nStateful := int64(rep.Pick(20000, 500000))
-	total := int64(len(tmpl)) + nRandom + nStateful
+	nBoundary := int64(rep.Pick(8000, 200000))
+	total := int64(len(tmpl)) + nRandom + nStateful + nBoundary
 	workers := runtime.GOMAXPROCS(0)
 	if workers > 16 {
 		workers = 16
@@ -652,7 +681,7 @@ func main() {
 				if end > total {
 					end = total
 				}
-				caselog.Log(map[string]any{"seed": rep.Seed, "tier": rep.Tier, "program_index_from": start, "program_index_to": end, "note": "program i < " + fmt.Sprint(len(tmpl)) + " is template i, the next " + fmt.Sprint(nRandom) + " are random programs, the rest stateful random programs, regenerated from mix(seed,i)"})
+				caselog.Log(map[string]any{"seed": rep.Seed, "tier": rep.Tier, "program_index_from": start, "program_index_to": end, "note": "program i < " + fmt.Sprint(len(tmpl)) + " is template i, the next " + fmt.Sprint(nRandom) + " are random programs, the next " + fmt.Sprint(nStateful) + " stateful random programs, the rest boundary random programs, regenerated from mix(seed,i)"})
 				for i := start; i < end; i++ {
 					rng := rand.New(rand.NewSource(mix(rep.Seed, i)))
 					var lp *lprog
@@ -660,8 +689,10 @@ func main() {
 						lp = tmpl[i]
 					} else if i < int64(len(tmpl))+nRandom {
 						lp = genRandom(rng, i)
-					} else {
+					} else if i < int64(len(tmpl))+nRandom+nStateful {
 						lp = genStateful(rng, i)
+					} else {
+						lp = genBoundary(rng, i)
 					}
 					p := render(lp, rng)
 					current[wi].Store(p)
@@ -797,6 +828,23 @@ func main() {
 		defReg += v
 	}
 	c("ref:continuations_kept_with_pending_jump_return", ft.deferredPending)
+	rep.Max("max_jumps_executed_on_one_path", int64(ft.maxJumpsOnPath))
+	rep.Max("max_gotos_executed_on_one_path", int64(ft.maxGotosOnPath))
+	rep.Max("max_rules_visited_on_one_path", int64(ft.maxRulesVisited))
+	rep.Max("max_marks_on_one_query", int64(ft.maxMarks))
+	rep.Max("max_stored_values_on_one_query", int64(ft.maxValues))
+	for k, v := range ft.markReadsByValue {
+		c("ref:mark_reads,"+strings.ReplaceAll(k, " ", "_"), v)
+	}
+	for k, v := range ft.markReadsByCount {
+		c("ref:mark_reads_while_the_query_carried_"+k+"_marks", v)
+	}
+	for k, v := range ft.realMatcherReads {
+		c("ref:real_matcher_"+strings.ReplaceAll(k, " ", ","), v)
+	}
+	for k, v := range ft.pathBuckets {
+		c("executions_with_"+strings.ReplaceAll(k, " ", "_"), v)
+	}
 	rep.Count("late_runs_after_toplevel_returned_compared", tot.lateRuns)
 	rep.Count("late_runs_on_a_new_goroutine", tot.lateRunsNewG)
 	rep.Count("late_runs_repeated(2nd/3rd run of the same kept continuation)", tot.lateReRuns)
@@ -839,6 +887,38 @@ func main() {
 			"isolated read with the copy made by cpa (original ran first)":    ft.isoReadsByWrap["cpa"],
 			"isolated read with the copy made by cpc (concurrent)":            ft.isoReadsByWrap["cpc"],
 			"isolated read with the copy kept for a late run":                 ft.isoReadsByWrap["laterc"] + ft.isoReadsByWrap["lategc"],
+			// boundary values and sizes
+			"mark 0 read while absent":                       ft.markReadsByValue["value 0 absent"],
+			"mark 0 read while present":                      ft.markReadsByValue["value 0 present"],
+			"mark 1 read while absent":                       ft.markReadsByValue["value 1 absent"],
+			"mark max uint32 read while absent":              ft.markReadsByValue["value max absent"],
+			"mark max uint32 read while present":             ft.markReadsByValue["value max present"],
+			"mark read on a query without marks":             ft.markReadsByCount["0"],
+			"mark read on a query with 4 marks":              ft.markReadsByCount["4"],
+			"mark read on a query with 5 marks":              ft.markReadsByCount["5"],
+			"mark read on a query with 16 marks":             ft.markReadsByCount["16"],
+			"mark read on a query with 17 marks":             ft.markReadsByCount["17"],
+			"mark read on a query with 33 marks":             ft.markReadsByCount["33"],
+			"mark read on a query with > 33 marks":           ft.markReadsByCount["34+"],
+			"real rcode matcher on rcode 0, true":            ft.realMatcherReads["rcode current=0 verdict=1"],
+			"real rcode matcher on rcode 0, false":           ft.realMatcherReads["rcode current=0 verdict=0"],
+			"real rcode matcher on rcode 4095, true":         ft.realMatcherReads["rcode current=max verdict=1"],
+			"real rcode matcher without a response":          ft.realMatcherReads["rcode current=no-response verdict=0"],
+			"real qtype matcher on type 0, true":             ft.realMatcherReads["qtype current=0 verdict=1"],
+			"real qtype matcher on type 0, false":            ft.realMatcherReads["qtype current=0 verdict=0"],
+			"real qtype matcher on type 65535, true":         ft.realMatcherReads["qtype current=max verdict=1"],
+			"real qclass matcher on class 0, true":           ft.realMatcherReads["qclass current=0 verdict=1"],
+			"real qclass matcher on class 65535, true":       ft.realMatcherReads["qclass current=max verdict=1"],
+			"real has_resp matcher true":                     ft.realMatcherReads["has_resp verdict=1"],
+			"real has_resp matcher false":                    ft.realMatcherReads["has_resp verdict=0"],
+			"execution with > 16 jumps on one path":          ft.pathBuckets["more than 16 jumps on one path"],
+			"execution with > 64 jumps on one path":          ft.pathBuckets["more than 64 jumps on one path"],
+			"execution with > 256 jumps on one path":         ft.pathBuckets["more than 256 jumps on one path"],
+			"execution with > 64 gotos on one path":          ft.pathBuckets["more than 64 gotos on one path"],
+			"execution with > 64 pending jump returns":       ft.pathBuckets["more than 64 pending jump returns (nesting)"],
+			"execution that visits > 1000 rules on one path": ft.pathBuckets["more than 1000 rules visited on one path"],
+			"query with > 32 marks":                          ft.pathBuckets["more than 32 marks on one query"],
+			"query with > 32 stored values":                  ft.pathBuckets["more than 32 stored values on one query"],
 		}
 		var missing []string
 		for k, v := range need {
